@@ -21,6 +21,8 @@ type Case struct {
 	Order []int       `json:"order,omitempty"`
 	// StoreUses: the option that keeps the uses statements on the entries is set (the trees are the same)
 	StoreUses bool `json:"store_uses,omitempty"`
+	// Fetch: these sources are not handed over; they wait in a search-path directory and are fetched by Process
+	Fetch []string `json:"fetch,omitempty"`
 }
 
 func check(c Case) (o ev.Outcome) {
@@ -32,6 +34,9 @@ func check(c Case) (o ev.Outcome) {
 	if c.Set.OlderText() != nil {
 		o.Class("older-revision-also-loaded")
 	}
+	if len(c.Fetch) > 0 {
+		o.Class("one-module-fetched-from-search-path")
+	}
 	for _, m := range c.Set.Modules {
 		for _, a := range m.Augments {
 			if strings.Contains(a.Nodes[0].Name, "late") {
@@ -41,7 +46,7 @@ func check(c Case) (o ev.Outcome) {
 	}
 	o.Sample = map[string]any{"order": c.Order, "sources": srcs}
 	var obs *schema.Observed
-	if !ev.Guard(&o, "load+process", func() { obs = schema.Load(srcs, func(ms *yang.Modules) { ms.ParseOptions.StoreUses = c.StoreUses }) }) {
+	if !ev.Guard(&o, "load+process", func() { obs = schema.LoadFetched(srcs, c.Fetch, func(ms *yang.Modules) { ms.ParseOptions.StoreUses = c.StoreUses }) }) {
 		o.Violations = nil
 		o.OutOfClaim = "crash while loading (C01)"
 		return
@@ -112,6 +117,7 @@ func gen(t *rapid.T) Case {
 		c.Order = schema.Order(t, len(set.Modules))
 	}
 	c.StoreUses = rapid.IntRange(0, 3).Draw(t, "store-uses") == 0
+	c.Fetch = schema.PlanFetch(t, set)
 	return c
 }
 
